@@ -240,18 +240,39 @@ def synthetic_world(chk, rng, wi):
         if dec_str(x) is not None and rng.random() < 0.6:
             return num(x, "D")
         return num(x, "F")
-    if form == "mapping":
-        table = ["dict", [[["t", [U(u), U(v)]], ["t", [enc(f), enc(o)]]]
-                          for (u, v), (f, o) in rows.items()]]
-    else:
-        table = ["l", [["t", [U(u), U(v), enc(f), enc(o)]]
-                       for (u, v), (f, o) in rows.items()]]
+    def mk_table(part):
+        if form == "mapping":
+            return ["dict", [[["t", [U(u), U(v)]], ["t", [enc(f), enc(o)]]]
+                             for (u, v), (f, o) in part.items()]]
+        return ["l", [["t", [U(u), U(v), enc(f), enc(o)]]
+                      for (u, v), (f, o) in part.items()]]
+    # the rows in one table, or split by unit pair over two converters that
+    # are registered one after the other: a pair that only the older one
+    # tabulates must still convert (the newer one answers None for it)
+    parts = [rows]
+    pairs = sorted({tuple(sorted(k)) for k in rows})
+    if len(pairs) >= 2 and rng.random() < 0.4:
+        rng.shuffle(pairs)
+        cut = rng.randint(1, len(pairs) - 1)
+        newer = set(pairs[cut:])
+        parts = [{k: r for k, r in rows.items()
+                  if tuple(sorted(k)) not in newer},
+                 {k: r for k, r in rows.items()
+                  if tuple(sorted(k)) in newer}]
     wid = "world%d" % wi
-    pre_sub = ([{"id": "conv", "e": ["c", ["g", "quantity:TableConverter"],
-                                     [table]]},
-                {"k": "reg", "e": M(V(tname), "register_converter",
-                                    V("conv"))}],
-               lambda obs: chk.count("table form|" + form))
+    pre_steps = []
+    for pi, part in enumerate(parts):
+        pre_steps += [{"id": "conv%d" % pi,
+                       "e": ["c", ["g", "quantity:TableConverter"],
+                             [mk_table(part)]]},
+                      {"k": "reg%d" % pi,
+                       "e": M(V(tname), "register_converter",
+                              V("conv%d" % pi))}]
+
+    def pre_judge(obs):
+        chk.count("table form|" + form)
+        chk.count("tables registered on the type|%d" % len(parts))
+    pre_sub = (pre_steps, pre_judge)
     subs = [pre_sub]
     for _ in range(20):
         subs.append(affine_sub(chk, rng, aff, dict(rows), wid, tname,
@@ -269,7 +290,7 @@ def run(chk, R, tier, seed):
               "sums and differences across units",
               "conversions with both directions tabulated inconsistently "
               "(forward row must win)",
-              "worlds"):
+              "worlds", "tables registered on the type|2"):
         chk.require(c)
     wrap = lambda jd: (lambda obs, rec, case: jd(obs))      # noqa: E731
     rows = {(u, v) for u in TEMP for v in TEMP if u != v}
